@@ -71,6 +71,7 @@ def conf_dict_to_tlv(conf_dict: ConfDict) -> list[bytes]:
         if (
             len(tlv_blocks[-1] + last_postface + preface + data + postface)
             > MAX_TLVBLOCK_SIZE
+            and tlv_blocks[-1]
         ):
             tlv_blocks[-1] += last_postface
             tlv_blocks.append(preface + data)
